@@ -117,17 +117,29 @@ def _rule_argument_materialised_first(ctx, typer):
         prm = [x for x in f.posparams if x != f.selfname][0]
         cfg = typer.cfg_of(f)
         conv = []
+        extra_ok = set()
         for cn in cfg.stmt_nodes(("stmt",)):
             a = cn.ast
             if isinstance(a, ast.Assign) and isinstance(a.value, ast.Call) and isinstance(a.value.func, ast.Name) \
                     and a.value.func.id in ("tuple", "list") and len(a.value.args) == 1 and isinstance(a.value.args[0], ast.Name) \
                     and a.value.args[0].id == prm:
                 conv.append(cn)
+            elif isinstance(a, ast.Assign) and isinstance(a.value, ast.Call) and isinstance(a.value.func, ast.Name) \
+                    and a.value.func.id in ("tuple", "list") and len(a.value.args) == 1 and isinstance(a.value.args[0], ast.IfExp):
+                # tuple(arg if arg is not None else ()): None accepted as "no children"; only identity tests on the raw argument
+                ie = a.value.args[0]
+                from .common import none_test
+                nt = none_test(ie.test)
+                arm, other = (ie.orelse, ie.body) if (nt is not None and nt[1]) else (ie.body, ie.orelse)
+                if nt is not None and nt[0] == prm and isinstance(arm, ast.Name) and arm.id == prm \
+                        and isinstance(other, (ast.Tuple, ast.List)) and not other.elts:
+                    conv.append(cn)
+                    extra_ok |= {id(x) for x in ast.walk(ie) if isinstance(x, ast.Name) and x.id == prm}
         if not conv:
             ctx.viol("E5", f, f.node, "the assigned iterable is never materialised with tuple(...): a generator is consumed by the first "
                      "loop over it", construct="%s.children.setter: no materialisation" % m)
             continue
-        conv_args = {id(c.ast.value.args[0]) for c in conv}
+        conv_args = {id(c.ast.value.args[0]) for c in conv} | extra_ok
         bad = None
         # materialised under ANOTHER name: the raw argument must not be looked at again at all (validating or iterating
         # the original after tuple() consumed a one-shot iterator sees nothing)
